@@ -323,6 +323,44 @@ theorem implementation_level_mutual (A B : Initiator) (nA nB : Nat)
   obtain ⟨k, h1, h2, hl, _⟩ := mutual_handshake_establishes_session A B nA nB hgA hgB hb hwA hwB
   exact ⟨k, h1, h2, hl⟩
 
+/-! ## (5) end to end: handshake, then signed messages over the encrypted, framed transport -/
+
+/-- **(5)** any two honest identities with the same capped difficulty whose solvers find work: both
+    ends hold one session key `k`, and — with `k` as signing key *and* transport key, as in the
+    code — every list of faithful messages whose signed encodings fit a frame, sent under any 12-byte
+    frame nonces and received through **any** cutting of the TCP stream into pieces, is delivered by
+    the reader (C14) and decoded by `decode_signed` (C13/C15) as exactly those messages, once each,
+    in order, with the session still up.  Composition of (3) with
+    `SystemMessaging.transport_carries_signed_messages`. -/
+theorem handshake_then_transport (A B : Initiator) (nA nB : Nat)
+    (hgA : GoodScalar A.id.scalar) (hgB : GoodScalar B.id.scalar) (hb : capped A.bits = capped B.bits)
+    (hwA : A.work B.id.peerId = some nA) (hwB : B.work A.id.peerId = some nB) :
+    ∃ k : List UInt8,
+      performHandshake sha256 hmac A.id A.bits B.id.peerId B.id.pub nB = some k ∧
+      performHandshake sha256 hmac B.id B.bits A.id.peerId A.id.pub nA = some k ∧
+      ∀ (sends : List (List UInt8 × Msg)) (chunks : List (List UInt8)),
+        (∀ s ∈ sends, s.1.length = 12) → (∀ s ∈ sends, System.Faithful s.2) →
+        (∀ s ∈ sends, (encodeSigned hmac s.2 k).length ≤ 1048576) →
+        chunks.flatten = sends.flatMap (fun s => Frames.encodeFrame k s.1 (encodeSigned hmac s.2 k)) →
+        ((Frames.feedChunks k Frames.Reader.init chunks).delivered.map (decodeSigned hmac · k)
+            = sends.map (fun s => .ok s.2)) ∧
+          (Frames.feedChunks k Frames.Reader.init chunks).ended = none := by
+  obtain ⟨k, h1, h2, hl, _⟩ := mutual_handshake_establishes_session A B nA nB hgA hgB hb hwA hwB
+  refine ⟨k, h1, h2, fun sends chunks hn hf hlen hc => ?_⟩
+  exact System.transport_carries_signed_messages k k sends chunks hl hn hf hlen hc
+
+/-- **(5′)** … and a message of that session replayed into a session keyed otherwise is rejected
+    unless the other key collides with `k` under HMAC on that very encoding. -/
+theorem handshake_then_wrong_session (A B : Initiator) (nA nB : Nat)
+    (hgA : GoodScalar A.id.scalar) (hgB : GoodScalar B.id.scalar) (hb : capped A.bits = capped B.bits)
+    (hwA : A.work B.id.peerId = some nA) (hwB : B.work A.id.peerId = some nB) :
+    ∃ k : List UInt8,
+      performHandshake sha256 hmac A.id A.bits B.id.peerId B.id.pub nB = some k ∧
+      ∀ (m : Msg) (k' : List UInt8), hmac k' (encode m) ≠ hmac k (encode m) →
+        decodeSigned hmac (encodeSigned hmac m k) k' = .reject := by
+  obtain ⟨k, h1, _, _, _⟩ := mutual_handshake_establishes_session A B nA nB hgA hgB hb hwA hwB
+  exact ⟨k, h1, fun m k' hnc => System.session_message_wrong_session_rejected m k k' hnc⟩
+
 /-! ## non-vacuity: concrete small identities, 2 bits of work, real SHA-256 / HMAC evaluated by the kernel -/
 
 def alice : Initiator := ⟨⟨[1], 123456789⟩, 2, fun s => s % 7⟩
